@@ -2,4 +2,4 @@
 # usage: mkvariant.sh <patch.diff> <dir>  — scratch copy of /repo with the patch applied (for debugging a check; remove it afterwards)
 set -eu
 P=$(readlink -f "$1")
-rm -rf "$2"; mkdir -p "$2"; rsync -a --exclude .git /repo/ "$2/"; cd "$2"; patch -p1 -s --no-backup-if-mismatch < "$P"
+rm -rf "$2"; mkdir -p "$2"; rsync -a --exclude .git /repo/ "$2/"; cd "$2"; patch -p1 -s -E --no-backup-if-mismatch < "$P"
